@@ -20,6 +20,8 @@ case "$ID" in
   C11) TARGETS="c11_woff2"; MAXLEN=4096 ;;
   C18) TARGETS="c18_type2"; MAXLEN=64 ;;
   C16) TARGETS="c16_glyf"; MAXLEN=2560 ;;
+  C06) TARGETS="c06_cmap"; MAXLEN=1024 ;;
+  C10) TARGETS="c10_container"; MAXLEN=640 ;;
   *) exit 0 ;;
 esac
 NT=$(echo $TARGETS | wc -w)
